@@ -49,6 +49,7 @@ struct Params {
     selftest_lease_bias_ms: i64,
     /// self test of the monitor: same-group announcements travel only through `inject`
     selftest_inject: bool,
+    user_data_before_cut: bool,
     parts: Vec<PSpec>,
     interval_ms: i64,
     loss: f64,
@@ -96,7 +97,10 @@ impl Params {
                 "event",
                 match &self.phase_c {
                     PhaseC::None => "none".to_string(),
-                    PhaseC::Lease { d } => format!("P{d} cut off the network"),
+                    PhaseC::Lease { d } => format!(
+                        "P{d} cut off the network{}",
+                        if self.user_data_before_cut { " right after writing 3 user samples" } else { "" }
+                    ),
                     PhaseC::Ignore { o, x, before_discovery } => format!(
                         "P{o}.ignore_participant(P{x}) {}",
                         if *before_discovery { "before the first announcement of the ignored participant gets through" } else { "after discovery" }
@@ -145,6 +149,7 @@ fn gen_params(rng: &mut Rng) -> Params {
     let mut p = Params {
         selftest_lease_bias_ms: 0,
         selftest_inject: false,
+        user_data_before_cut: rng.bool(),
         parts,
         interval_ms,
         loss,
@@ -575,6 +580,25 @@ async fn scenario(w: World, p: Params, obs: Arc<Mutex<NetObs>>) -> Outcome {
                     observers.push(o);
                 }
             }
+            // sometimes the last DATA from d is user data (later than its last announcement)
+            if p.user_data_before_cut {
+                for k in 0..3u32 {
+                    let _ = sim
+                        .timeout(
+                            2 * SEC,
+                            parts[d].dw.write(
+                                Plain {
+                                    writer: d as u32,
+                                    seq: k,
+                                    payload: vec![7; 8],
+                                },
+                                None,
+                            ),
+                        )
+                        .await;
+                    sim.sleep(40 * MS).await;
+                }
+            }
             w.net.set_partitioned(d, true);
             let t_cut = sim.now();
             out.event_done = !observers.is_empty();
@@ -599,9 +623,8 @@ async fn scenario(w: World, p: Params, obs: Arc<Mutex<NetObs>>) -> Outcome {
             events.sort();
             let mut gone: BTreeSet<usize> = BTreeSet::new();
             for (t, o, kind) in events {
-                if t <= sim.now() {
-                    continue;
-                }
+                // a probe that comes later than planned is still sound: "present" probes are only
+                // judged if they happen before the lease ran out, "absent" probes may be late
                 sleep_until(&sim, t).await;
                 let Some(l) = discovered(&sim, &parts[o].dp).await else { continue };
                 let present = l.contains(&parts[d].handle);
